@@ -6,6 +6,7 @@ import (
 	"errors"
 	"fmt"
 	"io"
+	"math"
 	"reflect"
 	"sort"
 	"time"
@@ -490,10 +491,12 @@ func (c *ByteConverter) To(obj Object) (interface{}, error) {
 	switch obj := obj.(type) {
 	case *Byte:
 		return obj.value, nil
-	case *Int:
-		return byte(obj.value), nil
-	case *Float:
-		return byte(obj.value), nil
+	case *Int, *Float:
+		v, err := integerInRange(obj, 0, math.MaxUint8, "byte")
+		if err != nil {
+			return nil, err
+		}
+		return byte(v), nil
 	default:
 		return nil, errz.TypeErrorf("type error: expected byte (%s given)", obj.Type())
 	}
@@ -515,7 +518,11 @@ func (c *RuneConverter) To(obj Object) (interface{}, error) {
 		r, _ := utf8.DecodeRuneInString(obj.value)
 		return r, nil
 	case *Int:
-		return rune(obj.value), nil
+		v, err := integerInRange(obj, math.MinInt32, math.MaxInt32, "rune")
+		if err != nil {
+			return nil, err
+		}
+		return rune(v), nil
 	default:
 		return nil, errz.TypeErrorf("type error: expected string (%s given)", obj.Type())
 	}
@@ -525,20 +532,43 @@ func (c *RuneConverter) From(obj interface{}) (Object, error) {
 	return NewString(string([]rune{obj.(rune)})), nil
 }
 
+// integerInRange returns the integer a script value stands for, provided that
+// it lies between min and max: an int or a byte, or a float with an integral
+// value. Anything else cannot be represented by the Go integer type typeName
+// and is rejected rather than truncated or wrapped around.
+func integerInRange(obj Object, min, max int64, typeName string) (int64, error) {
+	var v int64
+	switch obj := obj.(type) {
+	case *Byte:
+		v = int64(obj.value)
+	case *Int:
+		v = obj.value
+	case *Float:
+		f := obj.value
+		// Both bounds are exactly representable as floats; the upper one is
+		// the first value that does NOT fit in an int64
+		if f != math.Trunc(f) || f < -9223372036854775808.0 || f >= 9223372036854775808.0 {
+			return 0, errz.TypeErrorf("type error: value %v is not representable as %s", f, typeName)
+		}
+		v = int64(f)
+	default:
+		return 0, errz.TypeErrorf("type error: expected int (%s given)", obj.Type())
+	}
+	if v < min || v > max {
+		return 0, errz.TypeErrorf("type error: value %d is out of range for %s", v, typeName)
+	}
+	return v, nil
+}
+
 // IntConverter converts between int and *Int.
 type IntConverter struct{}
 
 func (c *IntConverter) To(obj Object) (interface{}, error) {
-	switch obj := obj.(type) {
-	case *Byte:
-		return int(obj.value), nil
-	case *Int:
-		return int(obj.value), nil
-	case *Float:
-		return int(obj.value), nil
-	default:
-		return nil, errz.TypeErrorf("type error: expected int (%s given)", obj.Type())
+	v, err := integerInRange(obj, math.MinInt, math.MaxInt, "int")
+	if err != nil {
+		return nil, err
 	}
+	return int(v), nil
 }
 
 func (c *IntConverter) From(obj interface{}) (Object, error) {
@@ -549,16 +579,11 @@ func (c *IntConverter) From(obj interface{}) (Object, error) {
 type Int8Converter struct{}
 
 func (c *Int8Converter) To(obj Object) (interface{}, error) {
-	switch obj := obj.(type) {
-	case *Byte:
-		return int8(obj.value), nil
-	case *Int:
-		return int8(obj.value), nil
-	case *Float:
-		return int8(obj.value), nil
-	default:
-		return nil, errz.TypeErrorf("type error: expected int (%s given)", obj.Type())
+	v, err := integerInRange(obj, math.MinInt8, math.MaxInt8, "int8")
+	if err != nil {
+		return nil, err
 	}
+	return int8(v), nil
 }
 
 func (c *Int8Converter) From(obj interface{}) (Object, error) {
@@ -569,16 +594,11 @@ func (c *Int8Converter) From(obj interface{}) (Object, error) {
 type Int16Converter struct{}
 
 func (c *Int16Converter) To(obj Object) (interface{}, error) {
-	switch obj := obj.(type) {
-	case *Byte:
-		return int16(obj.value), nil
-	case *Int:
-		return int16(obj.value), nil
-	case *Float:
-		return int16(obj.value), nil
-	default:
-		return nil, errz.TypeErrorf("type error: expected int (%s given)", obj.Type())
+	v, err := integerInRange(obj, math.MinInt16, math.MaxInt16, "int16")
+	if err != nil {
+		return nil, err
 	}
+	return int16(v), nil
 }
 
 func (c *Int16Converter) From(obj interface{}) (Object, error) {
@@ -589,16 +609,11 @@ func (c *Int16Converter) From(obj interface{}) (Object, error) {
 type Int32Converter struct{}
 
 func (c *Int32Converter) To(obj Object) (interface{}, error) {
-	switch obj := obj.(type) {
-	case *Byte:
-		return int32(obj.value), nil
-	case *Int:
-		return int32(obj.value), nil
-	case *Float:
-		return int32(obj.value), nil
-	default:
-		return nil, errz.TypeErrorf("type error: expected int (%s given)", obj.Type())
+	v, err := integerInRange(obj, math.MinInt32, math.MaxInt32, "int32")
+	if err != nil {
+		return nil, err
 	}
+	return int32(v), nil
 }
 
 func (c *Int32Converter) From(obj interface{}) (Object, error) {
@@ -609,16 +624,11 @@ func (c *Int32Converter) From(obj interface{}) (Object, error) {
 type Int64Converter struct{}
 
 func (c *Int64Converter) To(obj Object) (interface{}, error) {
-	switch obj := obj.(type) {
-	case *Byte:
-		return int64(obj.value), nil
-	case *Int:
-		return int64(obj.value), nil
-	case *Float:
-		return int64(obj.value), nil
-	default:
-		return nil, errz.TypeErrorf("type error: expected int (%s given)", obj.Type())
+	v, err := integerInRange(obj, math.MinInt64, math.MaxInt64, "int64")
+	if err != nil {
+		return nil, err
 	}
+	return int64(v), nil
 }
 
 func (c *Int64Converter) From(obj interface{}) (Object, error) {
@@ -629,36 +639,30 @@ func (c *Int64Converter) From(obj interface{}) (Object, error) {
 type UintConverter struct{}
 
 func (c *UintConverter) To(obj Object) (interface{}, error) {
-	switch obj := obj.(type) {
-	case *Byte:
-		return uint(obj.value), nil
-	case *Int:
-		return uint(obj.value), nil
-	case *Float:
-		return uint(obj.value), nil
-	default:
-		return nil, errz.TypeErrorf("type error: expected int (%s given)", obj.Type())
+	v, err := integerInRange(obj, 0, math.MaxInt64, "uint")
+	if err != nil {
+		return nil, err
 	}
+	return uint(v), nil
 }
 
 func (c *UintConverter) From(obj interface{}) (Object, error) {
-	return NewInt(int64(reflect.ValueOf(obj).Uint())), nil
+	v := reflect.ValueOf(obj).Uint()
+	if v > math.MaxInt64 {
+		return nil, errz.TypeErrorf("type error: value %d is out of range for int", v)
+	}
+	return NewInt(int64(v)), nil
 }
 
 // Uint8Converter converts between uint8 and *Int.
 type Uint8Converter struct{}
 
 func (c *Uint8Converter) To(obj Object) (interface{}, error) {
-	switch obj := obj.(type) {
-	case *Byte:
-		return uint8(obj.value), nil
-	case *Int:
-		return uint8(obj.value), nil
-	case *Float:
-		return uint8(obj.value), nil
-	default:
-		return nil, errz.TypeErrorf("type error: expected int (%s given)", obj.Type())
+	v, err := integerInRange(obj, 0, math.MaxUint8, "uint8")
+	if err != nil {
+		return nil, err
 	}
+	return uint8(v), nil
 }
 
 func (c *Uint8Converter) From(obj interface{}) (Object, error) {
@@ -669,16 +673,11 @@ func (c *Uint8Converter) From(obj interface{}) (Object, error) {
 type Uint16Converter struct{}
 
 func (c *Uint16Converter) To(obj Object) (interface{}, error) {
-	switch obj := obj.(type) {
-	case *Byte:
-		return uint16(obj.value), nil
-	case *Int:
-		return uint16(obj.value), nil
-	case *Float:
-		return uint16(obj.value), nil
-	default:
-		return nil, errz.TypeErrorf("type error: expected int (%s given)", obj.Type())
+	v, err := integerInRange(obj, 0, math.MaxUint16, "uint16")
+	if err != nil {
+		return nil, err
 	}
+	return uint16(v), nil
 }
 
 func (c *Uint16Converter) From(obj interface{}) (Object, error) {
@@ -689,16 +688,11 @@ func (c *Uint16Converter) From(obj interface{}) (Object, error) {
 type Uint32Converter struct{}
 
 func (c *Uint32Converter) To(obj Object) (interface{}, error) {
-	switch obj := obj.(type) {
-	case *Byte:
-		return uint32(obj.value), nil
-	case *Int:
-		return uint32(obj.value), nil
-	case *Float:
-		return uint32(obj.value), nil
-	default:
-		return nil, errz.TypeErrorf("type error: expected int (%s given)", obj.Type())
+	v, err := integerInRange(obj, 0, math.MaxUint32, "uint32")
+	if err != nil {
+		return nil, err
 	}
+	return uint32(v), nil
 }
 
 func (c *Uint32Converter) From(obj interface{}) (Object, error) {
@@ -709,20 +703,19 @@ func (c *Uint32Converter) From(obj interface{}) (Object, error) {
 type Uint64Converter struct{}
 
 func (c *Uint64Converter) To(obj Object) (interface{}, error) {
-	switch obj := obj.(type) {
-	case *Byte:
-		return uint64(obj.value), nil
-	case *Int:
-		return uint64(obj.value), nil
-	case *Float:
-		return uint64(obj.value), nil
-	default:
-		return nil, errz.TypeErrorf("type error: expected int (%s given)", obj.Type())
+	v, err := integerInRange(obj, 0, math.MaxInt64, "uint64")
+	if err != nil {
+		return nil, err
 	}
+	return uint64(v), nil
 }
 
 func (c *Uint64Converter) From(obj interface{}) (Object, error) {
-	return NewInt(int64(reflect.ValueOf(obj).Uint())), nil
+	v := reflect.ValueOf(obj).Uint()
+	if v > math.MaxInt64 {
+		return nil, errz.TypeErrorf("type error: value %d is out of range for int", v)
+	}
+	return NewInt(int64(v)), nil
 }
 
 // Float32Converter converts between float32 and *Float.
@@ -942,10 +935,23 @@ type StructConverter struct {
 
 func (c *StructConverter) To(obj Object) (interface{}, error) {
 	switch obj := obj.(type) {
+	case *NilType:
+		// Only a pointer can be nil
+		if c.typ.Kind() == reflect.Ptr {
+			return reflect.Zero(c.typ).Interface(), nil
+		}
+		return nil, errz.TypeErrorf("type error: expected a proxy or map (%s given)", obj.Type())
 	case *Proxy:
 		// Return the object wrapped by the proxy
 		if c.isValueType {
-			return reflect.ValueOf(obj.obj).Elem().Interface(), nil
+			v := reflect.ValueOf(obj.obj)
+			if v.Kind() == reflect.Ptr {
+				if v.IsNil() {
+					return nil, errz.TypeErrorf("type error: expected a %s (nil pointer given)", c.typ)
+				}
+				v = v.Elem()
+			}
+			return v.Interface(), nil
 		}
 		return obj.obj, nil
 	case *Map:
@@ -983,6 +989,10 @@ func (c *StructConverter) From(obj interface{}) (Object, error) {
 	if typ != c.typ {
 		return nil, errz.TypeErrorf("type error: expected %s (%s given)", c.typ, typ)
 	}
+	// A nil pointer is nil, not a proxy with nothing behind it
+	if v := reflect.ValueOf(obj); v.Kind() == reflect.Ptr && v.IsNil() {
+		return Nil, nil
+	}
 	// Wrap the object in a proxy
 	return NewProxy(obj)
 }
@@ -1009,8 +1019,15 @@ func assignableValue(v reflect.Value, t reflect.Type) reflect.Value {
 	if !v.IsValid() {
 		return reflect.Zero(t)
 	}
-	if vt := v.Type(); !vt.AssignableTo(t) && vt.Kind() == t.Kind() && vt.ConvertibleTo(t) {
+	vt := v.Type()
+	if !vt.AssignableTo(t) && vt.Kind() == t.Kind() && vt.ConvertibleTo(t) {
 		return v.Convert(t)
+	}
+	// Struct converters hand out pointers (so that a proxy can change the
+	// struct in place); a location that holds the struct itself gets a copy
+	// of what the pointer points to
+	if !vt.AssignableTo(t) && vt.Kind() == reflect.Ptr && !v.IsNil() && vt.Elem().AssignableTo(t) {
+		return v.Elem()
 	}
 	return v
 }
@@ -1115,6 +1132,11 @@ func (c *ArrayConverter) To(obj Object) (interface{}, error) {
 	if !ok {
 		return nil, errz.TypeErrorf("type error: expected a list (%s given)", obj.Type())
 	}
+	// A shorter list leaves the rest of the array zero, as in a Go array
+	// literal; a longer one does not fit
+	if len(list.items) > c.len {
+		return nil, errz.TypeErrorf("type error: expected a list of at most %d items (%d given)", c.len, len(list.items))
+	}
 	array := reflect.New(reflect.ArrayOf(c.len, c.valueType))
 	arrayElem := array.Elem()
 	for i, v := range list.items {
@@ -1173,7 +1195,14 @@ func (c *ErrorConverter) To(obj Object) (interface{}, error) {
 }
 
 func (c *ErrorConverter) From(obj interface{}) (Object, error) {
-	return NewError(obj.(error)), nil
+	if obj == nil {
+		return Nil, nil
+	}
+	err, ok := obj.(error)
+	if !ok {
+		return nil, errz.TypeErrorf("type error: expected an error (%T given)", obj)
+	}
+	return NewError(err), nil
 }
 
 // ContextConverter converts between context.Context and Context.
